@@ -37,6 +37,13 @@ func must(err error) {
 	}
 }
 
+// ioMust: trouble with the harness' own files is infrastructure (exit 3)
+func ioMust(err error) {
+	if err != nil {
+		harnessError("i/o: %v", err)
+	}
+}
+
 func harnessError(f string, a ...any) {
 	fmt.Println("HARNESS-ERROR " + fmt.Sprintf(f, a...))
 	os.Exit(3)
@@ -189,8 +196,8 @@ func main() {
 	flag.Parse()
 	var behs []behaviour
 	b, err := os.ReadFile(*behPath)
-	must(err)
-	must(json.Unmarshal(b, &behs))
+	ioMust(err)
+	ioMust(json.Unmarshal(b, &behs))
 	w := newWorld()
 	C := addrs["contract"]
 	var mism []mismatch
@@ -334,6 +341,6 @@ func main() {
 	}
 	res := map[string]any{"behaviours": len(behs), "steps": stepsRun, "txs": txs, "payers": payers, "mismatches": mism}
 	rb, _ := json.Marshal(res)
-	must(os.WriteFile(*out, rb, 0o644))
+	ioMust(os.WriteFile(*out, rb, 0o644))
 	fmt.Printf("{\"behaviours\":%d,\"steps\":%d,\"txs\":%d,\"mismatches\":%d}\n", len(behs), stepsRun, txs, len(mism))
 }
